@@ -24,12 +24,17 @@ import (
 	"verifharness/kit/nat"
 	"verifharness/kit/pk"
 	cs "verifharness/synth/ccmsynth"
+	es "verifharness/synth/ethsynth"
+
+	polyeth "github.com/polynetwork/poly/native/service/header_sync/eth"
 )
 
 const (
 	srcVoteA  = 10
 	srcVoteB  = 11
 	srcRipple = 12
+	srcEth    = 13
+	srcBsc    = 14
 	unknownID = 9999
 )
 
@@ -49,6 +54,15 @@ type tpl struct {
 	outs  []*pk.Key
 	dests []uint64
 	name  map[uint64]string
+	evm   []*evmSrc
+}
+
+// evmSrc is a proof-authenticated source (eth / bsc) with messages committed in its world state.
+type evmSrc struct {
+	s       *cs.EVMSource
+	name    string
+	msgs    []cs.EVMMessage // towards registered destinations
+	unknown []cs.EVMMessage // towards a chain id that is not registered
 }
 
 func build(r *kit.Run, nVals int, gen int) *tpl {
@@ -101,8 +115,138 @@ func build(r *kit.Run, nVals int, gen int) *tpl {
 		r.Inconclusive("registerAsset: " + rec.Err)
 		return nil
 	}
+	for _, d := range []struct {
+		kind string
+		id   uint64
+	}{{"eth", srcEth}, {"bsc", srcBsc}} {
+		src := &evmSrc{s: w.NewEVMSource(krng, d.kind, d.id), name: d.kind}
+		t.name[d.id] = d.kind
+		conv := func(p *scom.MakeTxParam) *es.TxParam {
+			return &es.TxParam{TxHash: p.TxHash, CrossChainID: p.CrossChainID, FromContractAddress: p.FromContractAddress, ToChainID: p.ToChainID,
+				ToContractAddress: p.ToContractAddress, Method: p.Method, Args: p.Args}
+		}
+		for i := 0; i < 40; i++ {
+			cross := make([]byte, krng.Intn(34))
+			krng.Read(cross)
+			cross = append(cross, byte(i)) // distinct ids
+			src.msgs = append(src.msgs, src.s.Commit(krng, conv(message(krng, d.id, t.dests[krng.Intn(len(t.dests))], cross))))
+		}
+		for i := 0; i < 8; i++ {
+			src.unknown = append(src.unknown, src.s.Commit(krng, conv(message(krng, d.id, unknownID, []byte{0xee, byte(i)}))))
+		}
+		if err := src.s.Seal(krng, 5); err != nil {
+			r.Inconclusive("evm source " + d.kind + ": " + err.Error())
+			return nil
+		}
+		t.evm = append(t.evm, src)
+	}
 	t.snap = w.Snapshot()
 	return t
+}
+
+// evmCall makes one proof-authenticated import and applies the C22 monitor: a successful import
+// must satisfy the release monitor for the submitted (and thereby verified) message; a failed one
+// must commit nothing.
+func (c *ctx) evmCall(class string, src *evmSrc, m cs.EVMMessage, judgeable bool, call func() *nat.CallRecord) bool {
+	r := c.r
+	o := c.t.w.Do(call)
+	r.Eval(1)
+	c.logf("%s evm src=%s cross=%x to=%d -> ok=%v err=%q touched=%v leaves=%d", class, src.name, m.P.CrossChainID, m.P.ToChainID, o.Rec.Ok, o.Rec.Err, o.Touched(), len(o.Rec.CrossHashes))
+	if o.Rec.Ok && !judgeable {
+		r.Count("accepted_without_reference_message", 1)
+		return true
+	}
+	if o.Rec.Ok {
+		p := cs.ToParam(m.P)
+		for _, f := range cs.CheckRelease(o, cs.Release{Source: src.s.Spec.ID, Param: p}) {
+			r.Violation("accepted-import "+f.Code, fmt.Sprintf("source router %s, destination router %s: %s", src.name, c.t.name[p.ToChainID], f.Detail),
+				map[string]interface{}{"class": class, "trace": c.trace})
+		}
+		r.Count("accepted_imports", 1)
+		r.Count("accepted_from:"+src.name, 1)
+		r.Count("accepted_to:"+c.t.name[p.ToChainID], 1)
+		r.Distinct("acc", src.name, c.t.name[p.ToChainID], len(p.TxHash), len(p.CrossChainID), len(p.FromContractAddress), len(p.ToContractAddress), len(p.Method), len(p.Args))
+		return true
+	}
+	for _, f := range cs.CheckNoRelease(o) {
+		r.Violation("non-accepted-call "+f.Code, fmt.Sprintf("evm %s ok=%v: %s", src.name, o.Rec.Ok, f.Detail), map[string]interface{}{"class": class, "trace": c.trace})
+	}
+	if !o.Unchanged() {
+		r.Violation("failed-call-changed-state", fmt.Sprintf("touched %v", o.Touched()), map[string]interface{}{"class": class, "trace": c.trace})
+	}
+	r.Count("deciding_call_failed", 1)
+	r.Count("deciding_call_failed:"+class, 1)
+	r.Count("evm_import_refused:"+src.name, 1)
+	r.Distinct("rej", src.name, class)
+	return false
+}
+
+// evmRound plays one scenario on a proof-authenticated source; false if its messages are used up.
+func (c *ctx) evmRound(evmUsed map[string]bool) bool {
+	src := c.t.evm[c.rng.Intn(len(c.t.evm))]
+	pick := func(list []cs.EVMMessage, tag string) (cs.EVMMessage, bool) {
+		for try := 0; try < 3*len(list); try++ {
+			i := c.rng.Intn(len(list))
+			k := fmt.Sprintf("%s/%s/%d", src.name, tag, i)
+			if !evmUsed[k] {
+				evmUsed[k] = true
+				return list[i], true
+			}
+		}
+		return cs.EVMMessage{}, false
+	}
+	n := len(src.s.Heights) - 1
+	idx := c.rng.Intn(n)
+	switch k := c.rng.Intn(10); {
+	case k < 5:
+		m, ok := pick(src.msgs, "m")
+		if !ok {
+			return false
+		}
+		c.evmCall("valid", src, m, true, func() *nat.CallRecord { return src.s.Import(m, idx, nil) })
+	case k == 5:
+		m, ok := pick(src.unknown, "u")
+		if !ok {
+			return false
+		}
+		c.evmCall("dest-unregistered", src, m, true, func() *nat.CallRecord { return src.s.Import(m, idx, nil) })
+	case k == 6:
+		m, ok := pick(src.msgs, "m")
+		if !ok {
+			return false
+		}
+		to := m.P.ToChainID
+		if rec := c.t.w.Black(to); !rec.Ok {
+			c.r.Inconclusive("black: " + rec.Err)
+			return true
+		}
+		c.evmCall("dest-blacklisted", src, m, true, func() *nat.CallRecord { return src.s.Import(m, idx, nil) })
+		if rec := c.t.w.White(to); !rec.Ok {
+			c.r.Inconclusive("white: " + rec.Err)
+			return true
+		}
+		c.evmCall("valid-after-whitelisting", src, m, true, func() *nat.CallRecord { return src.s.Import(m, idx, nil) })
+	case k == 7 || k == 8:
+		m, ok := pick(src.msgs, "m")
+		if !ok {
+			return false
+		}
+		if c.evmCall("valid", src, m, true, func() *nat.CallRecord { return src.s.Import(m, idx, nil) }) {
+			c.evmCall("replay", src, m, true, func() *nat.CallRecord { return src.s.Import(m, (idx+1)%n, nil) })
+		}
+	default:
+		m, ok := pick(src.msgs, "m")
+		if !ok {
+			return false
+		}
+		other := src.msgs[c.rng.Intn(len(src.msgs))]
+		if string(other.P.Serialize()) == string(m.P.Serialize()) {
+			return true
+		}
+		// message bytes that are not the ones the proven slot commits to
+		c.evmCall("malformed", src, m, false, func() *nat.CallRecord { return src.s.Import(m, idx, other.P.Serialize()) })
+	}
+	return true
 }
 
 // message draws a message with boundary-biased field sizes.
@@ -252,12 +396,14 @@ func (c *ctx) fresh() []byte {
 func TestC22(t *testing.T) {
 	r := kit.Start(t, "C22", "exploration")
 	defer r.Finish()
-	r.Rule("voting rounds through ImportOuterTransfer on main-net id from {2 VOTE chains, 1 ripple chain} towards one registered chain per account-based router constant (21) and back to a source chain; messages with boundary-biased field sizes (0, 1, 0xfd boundary, kilobytes); classes: valid, destination unregistered, destination blacklisted, replay of an accepted cross-chain id, malformed message bytes; every call (votes below threshold, outsiders, repeat voters, votes after release, deciding calls) goes through the monitor; distinct = (source router, destination router, field lengths) for accepted imports and (router, class) for refused ones")
+	r.Rule("voting rounds through ImportOuterTransfer on main-net id from {2 VOTE chains, 1 ripple chain, 1 eth chain, 1 bsc chain (proof-authenticated single-call imports of messages committed in a synthetic world state)} towards one registered chain per account-based router constant (21) and back to a source chain; messages with boundary-biased field sizes (0, 1, 0xfd boundary, kilobytes); classes: valid, destination unregistered, destination blacklisted, replay of an accepted cross-chain id, malformed message bytes; every call (votes below threshold, outsiders, repeat voters, votes after release, deciding calls) goes through the monitor; distinct = (source router, destination router, field lengths) for accepted imports and (router, class) for refused ones")
+	polyeth.VerifSealBypass = true
+	defer func() { polyeth.VerifSealBypass = false }()
 	rng := r.Rand("cases")
 	nRounds := r.N(1500, 45000)
 	var tp *tpl
 	var vm *cs.VoteModel
-	var used map[string]bool
+	var used, evmUsed map[string]bool
 	for i := 0; i < nRounds && r.Violations() < 30; i++ {
 		if i%300 == 0 {
 			n := 4 + (i/300)%5
@@ -268,9 +414,15 @@ func TestC22(t *testing.T) {
 		}
 		if i%25 == 0 {
 			tp.w.Restore(tp.snap)
-			vm, used = cs.NewVoteModel(), map[string]bool{}
+			vm, used, evmUsed = cs.NewVoteModel(), map[string]bool{}, map[string]bool{}
 		}
 		c := &ctx{r: r, rng: rng, t: tp, vm: vm, used: used}
+		if rng.Intn(4) == 0 {
+			tp.w.E.Height = 1 + uint32(rng.Intn(40000000))
+			if c.evmRound(evmUsed) {
+				continue
+			}
+		}
 		// a group of related rounds on the same universe state
 		sources := []uint64{srcVoteA, srcVoteB, srcRipple}
 		src := sources[rng.Intn(3)]
@@ -315,6 +467,10 @@ func TestC22(t *testing.T) {
 	r.Require("accepted_imports", nRounds/3)
 	r.Require("accepted_from:vote", nRounds/6)
 	r.Require("accepted_from:ripple", nRounds/12)
+	r.Require("accepted_from:eth", nRounds/40)
+	r.Require("accepted_from:bsc", nRounds/40)
+	r.Require("evm_import_refused:eth", nRounds/60)
+	r.Require("evm_import_refused:bsc", nRounds/60)
 	r.Require("deciding_call_failed", nRounds/8)
 	r.Require("deciding_call_failed:dest-unregistered", nRounds/40)
 	r.Require("deciding_call_failed:dest-blacklisted", nRounds/40)
